@@ -41,6 +41,7 @@ type Runner struct {
 	vo     ViewOpts
 	step   int
 	lastPhase string
+	rawTxs    [][]byte // bytes of every Deliver of this behaviour, in order (for Redeliver)
 	txHex  []string
 	panics int
 }
@@ -206,6 +207,7 @@ func (r *Runner) doStep(act M) error {
 		}
 		obs["result"], obs["failIdx"], obs["code"], obs["offs"], obs["panic"] = res.Result, res.FailIdx, res.Code, offs, res.Panic
 		extra["real"] = M{"tx": hex.EncodeToString(res.TxBytes), "log": res.Log, "gas": res.GasUsed}
+		r.rawTxs = append(r.rawTxs, res.TxBytes)
 		if res.Result == "ok" {
 			for i, m := range list(tx, "msgs") {
 				mm := m.(M)
@@ -215,6 +217,14 @@ func (r *Runner) doStep(act M) error {
 				}
 			}
 		}
+	case "Redeliver":
+		k := int(num(act, "k"))
+		if k < 1 || k > len(r.rawTxs) || r.rawTxs[k-1] == nil {
+			return fmt.Errorf("Redeliver %d: no such delivery", k)
+		}
+		res := c.DeliverRaw(r.rawTxs[k-1])
+		obs["result"], obs["failIdx"], obs["code"], obs["offs"], obs["panic"] = res.Result, res.FailIdx, res.Code, []any{}, res.Panic
+		extra["real"] = M{"log": res.Log}
 	case "EndBlock":
 		supBefore := c.App.BankKeeper.GetSupply(c.Ctx(), "umed").Amount
 		_, err := c.EndBlock()
